@@ -13,6 +13,7 @@ pub mod c06;
 pub mod cone_common;
 pub mod c07;
 pub mod c08;
+pub mod c09;
 pub mod c10;
 pub mod c11;
 pub mod c12;
@@ -43,9 +44,10 @@ pub fn registry() -> Vec<PropEntry> {
     PropEntry { id: "C06", meta: c06::meta, run: c06::run, replay: c06::replay, profiles: &["release"] },
     PropEntry { id: "C07", meta: c07::meta, run: c07::run, replay: c07::replay, profiles: &["release", "chk"] },
     PropEntry { id: "C08", meta: c08::meta, run: c08::run, replay: c08::replay, profiles: &["release", "chk"] },
+    PropEntry { id: "C09", meta: c09::meta, run: c09::run, replay: c09::replay, profiles: &["release", "chk"] },
     PropEntry { id: "C10", meta: c10::meta, run: c10::run, replay: c10::replay, profiles: &["release", "chk"] },
     PropEntry { id: "C11", meta: c11::meta, run: c11::run, replay: c11::replay, profiles: &["release", "chk"] },
-    PropEntry { id: "C12", meta: c12::meta, run: c12::run, replay: c12::replay, profiles: &["release"] },
+    PropEntry { id: "C12", meta: c12::meta, run: c12::run, replay: c12::replay, profiles: &["release", "chk"] },
     PropEntry { id: "C13", meta: c13::meta, run: c13::run, replay: c13::replay, profiles: &["release", "chk"] },
     PropEntry { id: "C14", meta: c14::meta, run: c14::run, replay: c14::replay, profiles: &["release", "chk"] },
     PropEntry { id: "C15", meta: c15::meta, run: c15::run, replay: c15::replay, profiles: &["release", "chk"] },
